@@ -327,8 +327,8 @@ pub(super) fn derive_schema(input: TokenStream) -> syn::Result<TokenStream> {
     }
 
     fn schema_of_variants(variants: Punctuated<Variant, token::Comma>, container_attrs: &ContainerAttributes) -> syn::Result<TokenStream> {
-        if variants.iter().all(|v| matches!(v.fields, Fields::Unit)) {
-            /* when like `enum Color { Red, Blue, Green }` */
+        if variants.iter().all(|v| matches!(v.fields, Fields::Unit)) && container_attrs.serde.tag.is_none() {
+            /* when like `enum Color { Red, Blue, Green }` (with `tag`, they are objects having the tag) */
 
             let mut variant_names = Vec::with_capacity(variants.len());
             for v in variants.iter() {
